@@ -152,7 +152,29 @@ impl Ranking {
         for _ in 0..3 {
             let q = rank_query(&mut cx.rng, lang, &unl.store.lang, &recs);
             cx.ctx(format!("C06 lang={} recs={:?} limit={} q={:?}", lang, recs, limit, q));
-            let st = St::build_sentinel(lang, &recs, limit); // fresh store per configuration
+            // a freshly built store per configuration; one in four is built in stages instead: some records, an empty-query
+            // and a word search under another limit, a limit change, the remaining records, the final limit
+            let st = if recs.len() >= 2 && cx.rng.chance(1, 4) {
+                let mut st = St::sentinel(lang, cx.rng.range(1, 3));
+                let cut = cx.rng.range(1, recs.len() - 1);
+                for r in &recs[..cut] {
+                    st.add(r);
+                }
+                let _ = st.search("");
+                let _ = st.search(&q);
+                st.store.limit = cx.rng.below(recs.len() + 2);
+                if cx.rng.chance(1, 2) {
+                    let _ = st.search("");
+                }
+                for r in &recs[cut..] {
+                    st.add(r);
+                }
+                st.store.limit = limit;
+                cx.count("stores built in stages with searches and limit changes in between");
+                st
+            } else {
+                St::build_sentinel(lang, &recs, limit)
+            };
             let got = st.search(&q);
             let all = unl.search(&q);
             cx.eval();
@@ -680,8 +702,9 @@ impl Ranking {
         let rounds = cx.rng.range(1, 3);
         let relimit = cx.rng.chance(1, 3);
         for round in 0..rounds {
-            if round > 0 && relimit {
-                // limit changes between two empty-query searches: up, and back to the first value
+            // limit changes between two empty-query searches (up, and back to the first value), before or after the adds
+            let limit_first = cx.rng.chance(1, 2);
+            if round > 0 && relimit && limit_first {
                 limit = if round == 1 { limit0 + cx.rng.range(1, 3) } else { limit0 };
                 st.store.limit = limit;
                 cx.count("searches after a limit change");
@@ -694,6 +717,11 @@ impl Ranking {
                     recs.push(r);
                 }
                 cx.count("searches after further adds");
+            }
+            if round > 0 && relimit && !limit_first {
+                limit = if round == 1 { limit0 + cx.rng.range(1, 3) } else { limit0 };
+                st.store.limit = limit;
+                cx.count("searches after a limit change");
             }
             let q = *cx.rng.pick(&["", " ", "-", "...", "\t!", "\u{a0}", "'", "\0", "\u{301}"]);
             cx.ctx(format!("C12 lang={} recs={:?} limit={} q={:?}", lang, recs, limit, q));
@@ -807,7 +835,7 @@ impl Prop for Ranking {
     }
     fn floors(&self) -> Vec<(&'static str, u64, u64)> {
         match self.0 {
-            Which::Verdicts => vec![("truncated (more matches than limit)", 200, 2000), ("beyond the 10x cap (soundness only)", 100, 1000), ("limit 0", 50, 500), ("selection buffer refilled (matches >= 2*limit)", 100, 1000), ("store with tied ratings (set comparison)", 50, 500), ("empty query", 50, 500), ("corpus-store searches", 100, 2000), ("corpus-store searches compared with the unlimited corpus store", 10, 200), ("large stores (limit 50-200)", 400, 8000), ("large stores whose match count is an exact multiple of the limit", 20, 400), ("stores of more than 2048 records", 8, 160), ("stores of 66-260 records", 300, 3000)],
+            Which::Verdicts => vec![("truncated (more matches than limit)", 200, 2000), ("beyond the 10x cap (soundness only)", 100, 1000), ("limit 0", 50, 500), ("selection buffer refilled (matches >= 2*limit)", 100, 1000), ("store with tied ratings (set comparison)", 50, 500), ("empty query", 50, 500), ("corpus-store searches", 100, 2000), ("corpus-store searches compared with the unlimited corpus store", 10, 200), ("large stores (limit 50-200)", 400, 8000), ("large stores whose match count is an exact multiple of the limit", 20, 400), ("stores of more than 2048 records", 8, 160), ("stores of 66-260 records", 300, 3000), ("stores built in stages with searches and limit changes in between", 3000, 30000)],
             Which::Order => vec![("pair stores", 2000, 20000), ("permuted stores", 2000, 20000), ("searches with >= 2 hits", 300, 3000), ("truncated lists compared across permutations", 30, 300), ("stores of similar words", 500, 5000), ("pairs involving a hit ranked 7th or lower", 300, 3000), ("large stores (limit 50-200)", 200, 4000), ("stores of more than 2048 records", 4, 80), ("stores with ratings in [2^31, 2^32)", 200, 2000), ("stores with ratings spread over the whole usize range", 100, 1000)],
             Which::Rules => vec![("rule exact>typo", 500, 5000), ("rule both>one", 500, 5000), ("rule prefix: exact>tail", 500, 5000), ("rule adjacent>gap", 500, 5000), ("rule first>second", 500, 5000), ("rule identical titles: rating decides", 300, 3000), ("rule equal rating: shorter title first", 300, 3000), ("rule function word: content word first", 1000, 10000), ("u made of two function words run together", 300, 3000), ("rule cases with a third, unrelated record", 20000, 200000), ("identical titles with ratings 1-3 apart", 1000, 10000), ("tails of 13-70 letters", 1000, 10000)],
             Which::Empty => vec![("searches after further adds", 1000, 10000), ("truncated lists with tied ratings", 500, 5000), ("stores with distinct ratings", 500, 5000), ("limit 0", 100, 1000), ("stores of 13-60 records", 1000, 10000), ("stores whose titles share a prefix of 20-40 characters", 1500, 15000), ("stores with adjacent ratings above 2^24", 1000, 10000), ("searches after a limit change", 1000, 10000)],
